@@ -155,8 +155,8 @@ def run(ctx, prefix="C03", set_explanation=True):
     def is_b(t):
         s = P.strip(t)
         return s == b_term or s == ("self", bl)
-    lt_edges = I.edges_implying(fn, pr, "Lt", is_p, is_b)
-    le_edges = I.edges_implying(fn, pr, "Le", is_p, is_b)
+    lt_edges = I.edges_implying(fn, pr, "Lt", is_p, is_b, F=F)
+    le_edges = I.edges_implying(fn, pr, "Le", is_p, is_b, F=F)
     assign_blocks = [bi for (bi, si, kind, payload) in bdefs if kind == "rv" and bi in main.body and is_p(pr.rvalue(payload))]
     # winner set: the HashSet receiving insert(pos)
     ins, clr = [], []
@@ -175,24 +175,31 @@ def run(ctx, prefix="C03", set_explanation=True):
         raise U(rule, "no winners.insert(position) found", fn)
     clr = [bi for bi, r in clr if r == wset]
     problems = []
-    if len(assign_blocks) != 1 or len(clr) != 1 or len(ins) != 1:
-        raise U(rule, f"expected one best=p, one clear, one insert in the loop; found {len(assign_blocks)}/{len(clr)}/{len(ins)}", fn)
-    ab, cbk, ib = assign_blocks[0], clr[0], ins[0]
+    if len(assign_blocks) != 1 or len(clr) != 1 or not ins:
+        raise U(rule, f"expected one best=p, one clear and at least one insert in the loop; found {len(assign_blocks)}/{len(clr)}/{len(ins)}", fn)
+    ab, cbk = assign_blocks[0], clr[0]
     if not I.guarded_by(fn, ab, lt_edges, start=main.header):
         problems.append(("best-update", "`best = p` is not guarded by `p < best`", ab))
     if not I.guarded_by(fn, cbk, lt_edges, start=main.header):
         problems.append(("clear", "`winners.clear()` is not guarded by `p < best`", cbk))
     if not (fn.cfg.dominates(ab, cbk) or fn.cfg.dominates(cbk, ab)):
         problems.append(("clear-pairing", "`best = p` and `winners.clear()` are on different paths", cbk))
-    if not I.guarded_by(fn, ib, le_edges, start=main.header):
-        problems.append(("insert", "`winners.insert(i)` is not guarded by `p <= best`", ib))
-    if I.guarded_by(fn, ib, lt_edges, start=main.header):
-        problems.append(("ties", "`winners.insert(i)` only happens under `p < best`: ties are dropped", ib))
-    # a new best must always be inserted: every path from the update back to the loop header passes the insert
+    for ib in ins:
+        if not I.guarded_by(fn, ib, le_edges, start=main.header):
+            problems.append(("insert", "`winners.insert(i)` is not guarded by `p <= best`", ib))
+    if all(I.guarded_by(fn, ib, lt_edges, start=main.header) for ib in ins):
+        problems.append(("ties", "`winners.insert(i)` only happens under `p < best`: ties are dropped", ins[0]))
+    # an equal hand must always be inserted: every path from a `p == best`-only edge ... (covered by the tie rule and the
+    # new-best rule below for the single-comparison idioms)
+    # a new best must always be inserted: every path from the update back to the loop header passes an insert
     tails = [t for (t, h) in fn.cfg.back_edges() if h == main.header]
-    r = I.reachable_avoiding(fn, [], start=ab, removed_blocks=[ib])
-    if any(t in r for t in tails) and ab != ib:
+    r = I.reachable_avoiding(fn, [], start=ab, removed_blocks=ins)
+    if any(t in r for t in tails) and ab not in ins:
         problems.append(("new-best-inserted", "a path from `best = p` to the next iteration skips `winners.insert(i)`", ab))
+    # a clear must not wipe the new best: no insert before the clear on the update path
+    for ib in ins:
+        if fn.cfg.dominates(ib, cbk) and ib != cbk:
+            problems.append(("insert-before-clear", "the new best is inserted before `winners.clear()`", ib))
     # p > best must not insert: insert unreachable when all <=-implying edges are removed (same as guarded_by above)
     if problems:
         for key, msg, bi in problems:
